@@ -128,6 +128,12 @@ def chk_sil(msg, silv, sup):
         ebase = ("hour" if sup == 0 else "sample") if ver == 2 else "unknown"
         if base != ebase:
             return "sil(%s, %r) = %r, encoded SIL supplement %d -> %r" % (msg, ver, r[1], sup, ebase)
+        if ver is not None:  # a version number read from an array or a table column is a numpy integer
+            import numpy as np
+            for conv in (np.int64, np.uint8):
+                r2 = call(A.sil, msg, conv(ver))
+                if r2 != r:
+                    return "sil(%s, %s(%d)) = %r, with a plain int %r" % (msg, conv.__name__, ver, r2, r[1])
     return None
 
 
@@ -361,6 +367,17 @@ def chk_lookup(c, note):
                 return "nic_v2(%s, 0, 0) = %r, TC%d means NIC %d" % (msg, r[1], tc, e)
             if e is not None and tc in L.NIC_V2_SUPP and r[1][0] != e:
                 return "nic_v2(%s, %d, %d) = %r, TC%d with these supplements means NIC %d" % (msg, nica, nicbc, r[1], tc, e)
+    import numpy as np
+    for a_, b_ in ((0, 0), (1, 0), (0, 1), (1, 1)):
+        base = call(A.nic_v2, msg, a_, b_)
+        for tname, conv in (("bool", bool), ("numpy.int64", np.int64), ("numpy.uint8", np.uint8), ("numpy.bool_", np.bool_)):
+            r2 = call(A.nic_v2, msg, conv(a_), conv(b_))
+            if r2 != base:
+                return "nic_v2(%s, %s(%d), %s(%d)) -> %r, with plain ints -> %r" % (msg, tname, a_, tname, b_, r2, base)
+        b1 = call(A.nic_v1, msg, a_)
+        for tname, conv in (("bool", bool), ("numpy.int64", np.int64)):
+            if call(A.nic_v1, msg, conv(a_)) != b1:
+                return "nic_v1(%s, %s(%d)) -> %r, with a plain int -> %r" % (msg, tname, a_, call(A.nic_v1, msg, conv(a_)), b1)
     r = call(A.nic_b, msg)
     if 9 <= tc <= 18:
         if r != ("ok", nicb):
